@@ -35,6 +35,11 @@ def required(tier):
             "stat-TajimaD": 15, "stat-Fst": 10, "stat-theta_L": 15, "pi-projection-invariant": 15, "legacy-format": 5}
 
 
+# alleles that make a line something other than a biallelic SNP: indels and MNPs of every short composition (also those that
+# are pieces of "ACGT"), multi-allelic lists, symbolic alleles
+NONSNP = ["AT", "AC", "CG", "GT", "ACG", "CGT", "ACGT", "GC", "TTT", "GA", "A,T", "C,G,T", "<DEL>", "*"]
+
+
 class Synth:
     """A synthetic data set: genotype calls per SNP and individual, plus the VCF text."""
 
@@ -60,11 +65,11 @@ class Synth:
             if not complete:
                 r = rng.random()
                 if r < 0.04:
-                    alt = "AT"
+                    alt = str(rng.choice(NONSNP))
                 elif r < 0.07:
                     alt = "N"
                 elif r < 0.09:
-                    ref = "GC"
+                    ref = str(rng.choice(NONSNP[:10]))
                 elif r < 0.12:
                     ref, alt = ref.lower(), alt.lower()
             aa_kind = str(rng.choice(["ref", "alt", "other", "N", ".", "absent", "lower", "pipe"], p=[.3, .3, .08, .06, .06, .08, .06, .06])) if not complete else str(rng.choice(["ref", "alt"]))
